@@ -330,6 +330,34 @@ static void poolRecursive(long n, int threads) {
   }
 }
 
+// the same through ThreadPool::scheduleBulk (the inline branch of scheduleBulkImpl under load)
+struct PoolBulkChain {
+  dispenso::ThreadPool* pool;
+  long n;
+  std::atomic<long> ran{0};
+  void link(long k) {
+    bodyEntry();
+    ran.fetch_add(1);
+    if (k < n)
+      pool->scheduleBulk(1, [this, k](size_t) { return [this, k]() { link(k + 1); }; });
+  }
+};
+static void poolBulkRecursive(long n, int threads) {
+  dispenso::ThreadPool pool((size_t)threads, 1);
+  PoolBulkChain c{&pool, n};
+  std::atomic<int> fillers{0};
+  Flag go;
+  pool.schedule([&]() {
+    go.wait();
+    c.link(1);
+  }, dispenso::ForceQueuingTag());
+  for (int i = 0; i < 4; ++i)
+    pool.schedule([&fillers]() { fillers.fetch_add(1); }, dispenso::ForceQueuingTag());
+  go.set();
+  while (c.ran.load() < n || fillers.load() < 4)
+    sched_yield();
+}
+
 static std::map<std::string, Scenario> scenarios() {
   std::map<std::string, Scenario> m;
   m["then_immediate"] = [](long n) { thenImmediate(n); };
@@ -347,6 +375,7 @@ static std::map<std::string, Scenario> scenarios() {
   m["ts_recursive_p1"] = [](long n) { tsRecursive(n); };
   m["pool_recursive_p1"] = [](long n) { poolRecursive(n, 1); };
   m["pool_recursive_p0"] = [](long n) { poolRecursive(n, 0); };
+  m["pool_bulk_recursive_p1"] = [](long n) { poolBulkRecursive(n, 1); };
   return m;
 }
 
